@@ -463,4 +463,336 @@ theorem streamTokensBuf_view (buf : Bytes) (sched : List Step) (data : Bytes) :
     (streamTokensBuf buf sched data).view = streamTokens buf.length sched data :=
   blexAll_view _ _ (BReader.ofBuffer buf sched data) [] ⟨Nat.le_refl _, Nat.zero_le _⟩
 
+/-! ### `read`, `read_bytes`, `skip_container`, `skip_unquoted_value` -/
+
+theorem bread_view (fuel : Nat) (c : BReader) (h : c.WF) :
+    (bread fuel c).view = read fuel c.view ∧ (bread fuel c).WF := by
+  obtain ⟨hv, hw⟩ := bnextOpt_view fuel c h
+  unfold bread read
+  rw [← hv]
+  cases hb : bnextOpt fuel c with
+  | ok c' a =>
+    rw [hb] at hw
+    cases a with
+    | none => exact ⟨rfl, hw⟩
+    | some t => exact ⟨rfl, hw⟩
+  | err c' e => rw [hb] at hw; exact ⟨rfl, hw⟩
+  | panic => exact ⟨rfl, trivial⟩
+  | ub => exact ⟨rfl, trivial⟩
+  | fuel => exact ⟨rfl, trivial⟩
+
+theorem breadBytes_view : ∀ (fuel : Nat) (c : BReader) (n : Nat), c.WF →
+    (breadBytes fuel c n).view = readBytes fuel c.view n ∧ (breadBytes fuel c n).WF := by
+  intro fuel
+  induction fuel with
+  | zero => intro c n _; exact ⟨rfl, trivial⟩
+  | succ f ih =>
+    intro c n h
+    rw [breadBytes, readBytes]
+    have hlen : c.view.win.length = c.end_ - c.start := BReader.window_length h
+    rw [hlen]
+    split
+    · obtain ⟨hfv, hfw⟩ := fill_view h
+      rw [hfv]
+      generalize bfillBuf c = fr at hfw
+      obtain ⟨c', fl⟩ := fr
+      simp only at hfw ⊢
+      cases fl with
+      | ok k =>
+        cases k with
+        | zero => exact ⟨rfl, hfw⟩
+        | succ k => exact ih c' n hfw
+      | full => exact ⟨rfl, hfw⟩
+      | io => exact ⟨rfl, hfw⟩
+    · exact res_adv h n (fun c' => .ok c' (c.window.take n)) (fun r' => .ok r' (c.window.take n)) (fun c' hc' => ⟨rfl, hc'⟩)
+
+/-- the scan of `skip_container` sees the window only -/
+theorem skipScanP_eq (phys : Bytes) (len : Nat) (hl : len ≤ phys.length) : ∀ (f : Nat) (st : SkipSt) (depth : Int) (ptr : Nat),
+    ptr ≤ len → skipScanP phys len f st depth ptr = skipScan (phys.take len) f st depth ptr := by
+  have hlen : (phys.take len).length = len := by simp; omega
+  intro f
+  induction f with
+  | zero => intro st depth ptr _; rfl
+  | succ f ih =>
+    intro st depth ptr hp
+    cases st with
+    | none =>
+      rw [skipScanP, skipScan, hlen]
+      have hchunk : (if len - ptr > 8 then (read64 phys ptr).map (fun data => chunkStep data depth) else some none) =
+          (if len - ptr > 8 then (read64 (phys.take len) ptr).map (fun data => chunkStep data depth) else some none) := by
+        split
+        · rw [read64_phys phys len ptr (by omega)]
+        · rfl
+      simp only [hchunk]
+      generalize hch : (if len - ptr > 8 then (read64 (phys.take len) ptr).map (fun data => chunkStep data depth) else some none) = chunk
+      cases chunk with
+      | none => rfl
+      | some o =>
+        cases o with
+        | some d =>
+          simp only
+          have hgt : len - ptr > 8 := by
+            by_cases hg : len - ptr > 8
+            · exact hg
+            · simp [hg] at hch
+          exact ih .none d (ptr + 8) (by omega)
+        | none =>
+          simp only
+          split
+          · rfl
+          · rename_i hne
+            have hlt : ptr < len := by
+              have : ptr ≠ len := by simpa using hne
+              omega
+            rw [getElem?_phys phys len ptr hlt]
+            cases (phys.take len)[ptr]? with
+            | none => rfl
+            | some val =>
+              simp only
+              split; · exact ih _ _ _ (by omega)
+              split
+              · split
+                · rfl
+                · exact ih _ _ _ (by omega)
+              split; · exact ih _ _ _ (by omega)
+              split; · exact ih _ _ _ (by omega)
+              exact ih _ _ _ (by omega)
+    | quote =>
+      rw [skipScanP, skipScan, hlen]
+      split
+      · rfl
+      · rename_i hne
+        have hlt : ptr < len := by
+          have : ptr ≠ len := by simpa using hne
+          omega
+        rw [getElem?_phys phys len ptr hlt]
+        cases (phys.take len)[ptr]? with
+        | none => rfl
+        | some x =>
+          simp only
+          split
+          · split
+            · rfl
+            · exact ih _ _ _ (by omega)
+          · split
+            · exact ih _ _ _ (by omega)
+            · exact ih _ _ _ (by omega)
+    | comment =>
+      rw [skipScanP, skipScan, hlen]
+      split
+      · rfl
+      · rename_i hne
+        have hlt : ptr < len := by
+          have : ptr ≠ len := by simpa using hne
+          omega
+        rw [getElem?_phys phys len ptr hlt]
+        cases (phys.take len)[ptr]? with
+        | none => rfl
+        | some x =>
+          simp only
+          split
+          · exact ih _ _ _ (by omega)
+          · exact ih _ _ _ (by omega)
+
+theorem bskipLoop_view : ∀ (fuel : Nat) (c : BReader) (st : SkipSt) (depth : Int) (ptr : Nat), c.WF → ptr ≤ c.end_ - c.start →
+    (bskipLoop fuel c st depth ptr).view = skipLoop fuel c.view st depth ptr ∧ (bskipLoop fuel c st depth ptr).WF := by
+  intro fuel
+  induction fuel with
+  | zero => intro c st depth ptr _ _; exact ⟨rfl, trivial⟩
+  | succ f ih =>
+    intro c st depth ptr h hp
+    have hlen : c.view.win.length = c.end_ - c.start := BReader.window_length h
+    have hphys : c.end_ - c.start ≤ (c.buf.drop c.start).length := by
+      have := h.1; have := h.2; simp only [List.length_drop]; omega
+    have hw : c.view.win = (c.buf.drop c.start).take (c.end_ - c.start) := rfl
+    rw [bskipLoop, skipLoop, skipScanP_eq _ _ hphys _ _ _ _ hp, hlen, hw]
+    cases skipScan ((c.buf.drop c.start).take (c.end_ - c.start)) (c.end_ - c.start + 2) st depth ptr with
+    | done p => exact res_adv h p (fun c' => .ok c' ()) (fun r' => .ok r' ()) (fun c' hc' => ⟨rfl, hc'⟩)
+    | refill st' depth' p =>
+      simp only
+      rw [advance_view h]
+      cases hb : badvance c p with
+      | none => exact ⟨rfl, trivial⟩
+      | some c0 =>
+        have h0 := badvance_WF h hb
+        simp only [Option.map_some]
+        obtain ⟨hfv, hfw⟩ := fill_view h0
+        rw [hfv]
+        generalize bfillBuf c0 = fr at hfw
+        obtain ⟨c1, fl⟩ := fr
+        simp only at hfw ⊢
+        cases fl with
+        | ok k =>
+          cases k with
+          | zero => exact ⟨rfl, hfw⟩
+          | succ k => exact ih c1 st' depth' 0 hfw (Nat.zero_le _)
+        | full => exact ⟨rfl, hfw⟩
+        | io => exact ⟨rfl, hfw⟩
+    | ub => exact ⟨rfl, trivial⟩
+    | fuel => exact ⟨rfl, trivial⟩
+
+theorem bskipContainer_view (fuel : Nat) (c : BReader) (h : c.WF) :
+    (bskipContainer fuel c).view = skipContainer fuel c.view ∧ (bskipContainer fuel c).WF :=
+  bskipLoop_view fuel c .none 1 0 h (Nat.zero_le _)
+
+theorem head4_spec (l : Bytes) : head4 l = 0 ∨ (head4 l = 4 ∧ ∃ tl, l = 10 :: 9 :: 9 :: 9 :: tl) := by
+  rcases l with _ | ⟨b0, _ | ⟨b1, _ | ⟨b2, _ | ⟨b3, rest⟩⟩⟩⟩
+  · left; rfl
+  · left; rfl
+  · left; rfl
+  · left; rfl
+  · simp only [head4]
+    split
+    · rename_i hc
+      right
+      simp only [Bool.and_eq_true, beq_iff_eq] at hc
+      obtain ⟨⟨⟨rfl, rfl⟩, rfl⟩, rfl⟩ := hc
+      exact ⟨rfl, rest, rfl⟩
+    · left; rfl
+
+/-- skipping the four blanks `\n\t\t\t` first does not change the blank scan -/
+theorem skipUScan_skip4 (tl : Bytes) : skipUScan ((10 :: 9 :: 9 :: 9 :: tl).drop 4) 4 = skipUScan (10 :: 9 :: 9 :: 9 :: tl) 0 := by
+  simp [skipUScan, isBlank]
+
+theorem bskipUnquotedValue_view : ∀ (fuel : Nat) (c : BReader), c.WF →
+    (bskipUnquotedValue fuel c).view = skipUnquotedValue fuel c.view ∧ (bskipUnquotedValue fuel c).WF := by
+  intro fuel
+  induction fuel with
+  | zero => intro c _; exact ⟨rfl, trivial⟩
+  | succ f ih =>
+    intro c h
+    have hphys : c.end_ - c.start ≤ (c.buf.drop c.start).length := by
+      have := h.1; have := h.2; simp only [List.length_drop]; omega
+    have hw : c.view.win = c.window := rfl
+    rw [bskipUnquotedValue, skipUnquotedValue_unfold]
+    simp only [hw]
+    -- the window scan from the start
+    have hscan : skipUScan (c.window.drop (if c.end_ - c.start ≥ 4 then head4 (c.buf.drop c.start) else 0))
+        (if c.end_ - c.start ≥ 4 then head4 (c.buf.drop c.start) else 0) = skipUScan c.window 0 := by
+      split
+      · rename_i h4
+        rcases head4_spec (c.buf.drop c.start) with h0 | ⟨h4', tl, htl⟩
+        · rw [h0]; rfl
+        · rw [h4']
+          have hwin : c.window = 10 :: 9 :: 9 :: 9 :: tl.take (c.end_ - c.start - 4) := by
+            unfold BReader.window
+            rw [htl]
+            obtain ⟨k, hk⟩ : ∃ k, c.end_ - c.start = k + 4 := ⟨c.end_ - c.start - 4, by omega⟩
+            rw [hk]; simp
+          rw [hwin]; exact skipUScan_skip4 _
+      · rfl
+    rw [hscan]
+    cases skipUScan c.window 0 with
+    | open_ p =>
+      simp only
+      rw [advance_view h]
+      cases hb : badvance c (p + 1) with
+      | none => exact ⟨rfl, trivial⟩
+      | some c' => exact bskipContainer_view (f + 1) c' (badvance_WF h hb)
+    | stop => exact ⟨rfl, h⟩
+    | windowEnd =>
+      simp only
+      rw [advance_view h]
+      cases hb : badvance c c.window.length with
+      | none => exact ⟨rfl, trivial⟩
+      | some c0 =>
+        have h0 := badvance_WF h hb
+        simp only [Option.map_some]
+        obtain ⟨hfv, hfw⟩ := fill_view h0
+        rw [hfv]
+        generalize bfillBuf c0 = fr at hfw
+        obtain ⟨c1, fl⟩ := fr
+        simp only at hfw ⊢
+        cases fl with
+        | ok k =>
+          cases k with
+          | zero => exact ⟨rfl, hfw⟩
+          | succ k => exact ih c1 hfw
+        | full => exact ⟨rfl, hfw⟩
+        | io => exact ⟨rfl, hfw⟩
+
+/-! ### any sequence of API calls -/
+
+/-- what a caller observes of one call -/
+inductive Obs
+  | next (t : Option Token)
+  | token (t : Token)
+  | bytes (b : Bytes)
+  | unit
+  | err (e : Err)
+  | panic
+  | ub
+  | fuel
+  deriving DecidableEq, Repr
+
+def Res.obs {α : Type} (f : α → Obs) (r0 : Reader) : Res α → Obs × Reader
+  | .ok r a => (f a, r)
+  | .err r e => (.err e, r)
+  | .panic => (.panic, r0)
+  | .ub => (.ub, r0)
+  | .fuel => (.fuel, r0)
+
+def BRes.obs {α : Type} (f : α → Obs) (c0 : BReader) : BRes α → Obs × BReader
+  | .ok c a => (f a, c)
+  | .err c e => (.err e, c)
+  | .panic => (.panic, c0)
+  | .ub => (.ub, c0)
+  | .fuel => (.fuel, c0)
+
+/-- one call on the abstract reader: the observation and the reader afterwards (also after an error) -/
+def apiStep (fuel : Nat) : ApiCall → Reader → Obs × Reader
+  | .next, r => (next fuel r).obs .next r
+  | .read, r => (read fuel r).obs .token r
+  | .readBytes n, r => (readBytes fuel r n).obs .bytes r
+  | .skipContainer, r => (skipContainer fuel r).obs (fun _ => .unit) r
+  | .skipUnquotedValue, r => (skipUnquotedValue fuel r).obs (fun _ => .unit) r
+
+/-- one call on the reader over the concrete buffer -/
+def bapiStep (fuel : Nat) : ApiCall → BReader → Obs × BReader
+  | .next, c => (bnextOpt fuel c).obs .next c
+  | .read, c => (bread fuel c).obs .token c
+  | .readBytes n, c => (breadBytes fuel c n).obs .bytes c
+  | .skipContainer, c => (bskipContainer fuel c).obs (fun _ => .unit) c
+  | .skipUnquotedValue, c => (bskipUnquotedValue fuel c).obs (fun _ => .unit) c
+
+def apiRun (fuel : Nat) : List ApiCall → Reader → List Obs
+  | [], _ => []
+  | op :: ops, r => (apiStep fuel op r).1 :: apiRun fuel ops (apiStep fuel op r).2
+
+def bapiRun (fuel : Nat) : List ApiCall → BReader → List Obs
+  | [], _ => []
+  | op :: ops, c => (bapiStep fuel op c).1 :: bapiRun fuel ops (bapiStep fuel op c).2
+
+theorem obs_view {α : Type} (f : α → Obs) (c : BReader) (h : c.WF) (x : BRes α) (y : Res α) (hv : x.view = y) (hw : x.WF) :
+    (x.obs f c).1 = (y.obs f c.view).1 ∧ (x.obs f c).2.view = (y.obs f c.view).2 ∧ (x.obs f c).2.WF := by
+  subst hv
+  cases x with
+  | ok c' a => exact ⟨rfl, rfl, hw⟩
+  | err c' e => exact ⟨rfl, rfl, hw⟩
+  | panic => exact ⟨rfl, rfl, h⟩
+  | ub => exact ⟨rfl, rfl, h⟩
+  | fuel => exact ⟨rfl, rfl, h⟩
+
+theorem bapiStep_view (fuel : Nat) (op : ApiCall) (c : BReader) (h : c.WF) :
+    (bapiStep fuel op c).1 = (apiStep fuel op c.view).1 ∧ (bapiStep fuel op c).2.view = (apiStep fuel op c.view).2 ∧
+    (bapiStep fuel op c).2.WF := by
+  cases op with
+  | next => exact obs_view _ c h _ _ (bnextOpt_view fuel c h).1 (bnextOpt_view fuel c h).2
+  | read => exact obs_view _ c h _ _ (bread_view fuel c h).1 (bread_view fuel c h).2
+  | readBytes n => exact obs_view _ c h _ _ (breadBytes_view fuel c n h).1 (breadBytes_view fuel c n h).2
+  | skipContainer => exact obs_view _ c h _ _ (bskipContainer_view fuel c h).1 (bskipContainer_view fuel c h).2
+  | skipUnquotedValue => exact obs_view _ c h _ _ (bskipUnquotedValue_view fuel c h).1 (bskipUnquotedValue_view fuel c h).2
+
+/-- **every sequence of API calls** — `next`, `read`, `read_bytes(n)`, `skip_container`, `skip_unquoted_value` in any order,
+continuing after errors — observes over the concrete buffer exactly what it observes over the abstract window -/
+theorem bapiRun_view (fuel : Nat) : ∀ (ops : List ApiCall) (c : BReader), c.WF → bapiRun fuel ops c = apiRun fuel ops c.view := by
+  intro ops
+  induction ops with
+  | nil => intro c _; rfl
+  | cons op ops ih =>
+    intro c h
+    obtain ⟨h1, h2, h3⟩ := bapiStep_view fuel op c h
+    simp only [bapiRun, apiRun]
+    rw [h1, ih _ h3, h2]
+
 end Jomini.TextReader
